@@ -285,6 +285,13 @@ def read_view(e, v):
         return enc(getattr(e.style, v[1]))
     if k == 'gstyle':
         return enc(e.getStyle(v[1]))
+    if k == 'styeq':
+        AHP = lib()
+        other = AHP.SpecialAttributes.StyleAttribute(v[1])
+        rs = [e.style == other, e.style == v[1], not (e.style != other), not (e.style != v[1])]
+        if len(set(rs)) != 1:
+            return sx('inconsistent', *[_b(r) for r in rs])
+        return _b(rs[0])
     if k in ('clone', 'copy', 'deepcopy', 'pickle', 'repr'):
         c = make_copy(e, k)
         return [pairs(c.getAttributesList()), enc(c.getStartTag())]
